@@ -105,7 +105,8 @@ def split_row(fields, text):
 
 # ------------------------------------------------------------------ value generators
 TIME_EDGES = [0, 1, -1, 999999999, 1000000000, -999999999, -1000000000, 1500000000123456789, -1500000000999999999,
-              2 ** 63 - 1, -2 ** 63, -2 ** 63 + 1, 1700000000000000000, 86400 * 10 ** 9 - 1, 253402300799 * 10 ** 6]
+              2 ** 63 - 1, -2 ** 63, -2 ** 63 + 1, 1700000000000000000, 86400 * 10 ** 9 - 1, 253402300799 * 10 ** 6,
+              0, 10 ** 9, -10 ** 9, 1999999999, -1999999999, 9223372036 * 10 ** 9, -9223372036 * 10 ** 9]
 STR_POOL = [b"", b"a", b"Artist", "Série 世界".encode(), b"semi;colon", b"sl/ash.dot", b"nul\x00in", b"\xff\xfe\x00bad",
             b"x" * 255, b"y" * 256, b"z" * 300, b"'quote\"", b" lead", b"%_like"]
 
@@ -225,7 +226,7 @@ def encodable(row):
 
 # ------------------------------------------------------------------ histories
 MUTATING = ("tt.add", "tt.update", "tt.remove", "tt.setc", "tpl.add", "tpl.update", "tpl.remove", "tpe.add",
-            "tpe.remove", "tpe.clear", "inf.setcpi")
+            "tpe.remove", "tpe.clear", "inf.setcpi", "tt.uuid", "tt.clock", "tt.create")
 
 
 def gen_track_history(rng, schema, nops, hist):
@@ -233,7 +234,9 @@ def gen_track_history(rng, schema, nops, hist):
     g = G(rng, hist)
     uuid = rng.choice([b"lib-uuid-1", b"lib-uuid-1", b"u", b"", b"other-db"])
     clock = rng.choice([1700000000, 1700000001, 0, 5, 4102444800, -5])
-    lines = ["#mode tableapi", "tt.create " + schema, "tt.uuid " + cd.hexb(uuid), "tt.clock %d" % clock]
+    # the current-played indicator is random at creation: pin it, so that the Information row is known
+    lines = ["#mode tableapi", "tt.create " + schema, "tt.uuid " + cd.hexb(uuid), "tt.clock %d" % clock,
+             "inf.setcpi %d" % rng.choice([0, 7, -1, 2 ** 62])]
     live, next_id = [], 1
     paths, origins = [], []
     fields = [f for f, _ in TRACK_FIELDS if f != "id"]
@@ -295,9 +298,11 @@ def gen_track_history(rng, schema, nops, hist):
                 g.count("op:getc")
         elif c < 0.90:
             i = some_id()
+            lines.append("tt.ids")
             lines.append("tt.exists %d" % i)
             lines.append("tt.remove %d" % i)
             lines.append("tt.exists %d" % i)
+            lines.append("tt.ids")
             g.count("op:remove")
             if i in live:
                 live.remove(i)
@@ -309,15 +314,101 @@ def gen_track_history(rng, schema, nops, hist):
             uuid = rng.choice([b"lib-uuid-1", b"u2", b""])
             lines.append("tt.uuid " + cd.hexb(uuid))
             g.count("op:uuid")
-        else:
-            lines.append("tt.find " + cd.hexb(rng.choice(paths) if paths else b"nope"))
+        elif c < 0.985:
+            lines.append("tt.raw")
+            lines.append("tt.find " + cd.hexb(rng.choice(paths) if (paths and rng.random() < 0.8) else b"nope"))
             g.count("op:find")
+        else:
+            v = rng.choice([0, 1, -1, 5, 2 ** 63 - 1, -2 ** 63, g.i64()])
+            lines += ["inf.raw", "inf.setcpi %d" % v, "inf.get", "inf.raw"]
+            g.count("op:inf")
         if lines[-1].split()[0] in ("tt.get", "tt.getc", "tt.exists") and rng.random() < 0.7:
             lines.append("tt.ids")
             lines.append("tt.raw")
     lines.append("tt.ids")
     lines.append("tt.raw")
     return lines
+
+
+def gen_boundary_script(schema):
+    """Deterministic (seed-independent) boundary rows: every optional integer / optional time point PRESENT with
+    the values 0, 1, -1 (seconds for time points, plus sub-second remainders), every plain integer and time
+    point at 0 / +-1, every optional string present-and-empty, every optional double +0.0 — written by add(),
+    update() and by each setter, read back by get() and by every getter.  A conversion that treats a stored
+    zero as "absent" (or an absent value as zero) shows here on every run."""
+    g = G(random.Random(18), {})
+    lines = ["#mode tableapi", "tt.create " + schema, "tt.uuid " + cd.hexb(b"lib-uuid-1"), "tt.clock 1700000000",
+             "inf.setcpi 0"]
+    fields = [f for f, _ in TRACK_FIELDS if f != "id"]
+
+    def row(rid, k, n):
+        r = {}
+        for f, ty in TRACK_FIELDS:
+            if ty in ("i64", "oi64", "oi32"):
+                r[f] = k
+            elif ty in ("time", "otime"):
+                r[f] = k * 10 ** 9 + (0 if n % 2 == 0 else (999999999 if k >= 0 else -999999999))
+            elif ty == "str":
+                r[f] = b""
+            elif ty == "ostr":
+                r[f] = b""
+            elif ty == "odbl":
+                r[f] = cd.ZERO if k == 0 else cd.dbits(float(k))
+            elif ty == "bool":
+                r[f] = k != 0
+            else:
+                r[f] = g.blob(ty[5:]) if False else {"v2.track": dict(sr=cd.ZERO, samples=0, key=0, lo=cd.ZERO, mid=cd.ZERO, hi=cd.ZERO, extra=b""),
+                                                      "v2.ovw": dict(spp=cd.ZERO, pts=b"", mx=b"\0\0\0", extra=b""),
+                                                      "v2.beat": dict(sr=cd.ZERO, samples=cd.ZERO, flag=0, dflt=[], adj=[], extra=b""),
+                                                      "v2.cues": dict(cues=[], adj=cd.ZERO, flag=0, dflt=cd.ZERO, extra=b""),
+                                                      "v2.loops": dict(loops=[], extra=b"")}[ty[5:]]
+        r["id"] = rid
+        r["path"] = b"p%d_%d" % (n, k)
+        r["origin_database_uuid"], r["origin_track_id"] = b"other-db", 100 + n
+        return r
+    n = 0
+    for k in (0, 1, -1):
+        n += 1
+        lines.append("tt.add " + fmt_row(TRACK_FIELDS, row(0, k, n)))
+        lines.append("tt.get %d" % n)
+        for f in fields:
+            lines.append("tt.getc %s %d" % (f, n))
+    # update row 1 with the sub-second variants, rows 2 / 3 crosswise
+    for (i, k) in ((1, -1), (2, 0), (3, 1)):
+        n += 1
+        lines.append("tt.get %d" % i)
+        lines.append("tt.update " + fmt_row(TRACK_FIELDS, row(i, k, n)))
+        lines.append("tt.get %d" % i)
+    # every optional / time setter with 0, +-1 s and absent
+    for f in fields:
+        ty = TRACK_ACC_TY[f]
+        if ty in ("oi64", "oi32", "otime", "time"):
+            for v in ([0, 1, -1, None] if ty.startswith("o") else [0, 10 ** 9, -10 ** 9]):
+                if ty in ("otime",) and v not in (None,):
+                    v = v * 10 ** 9 if abs(v) < 10 ** 6 else v
+                lines.append("tt.get 2")
+                lines.append("tt.setc %s 2 %s" % (f, tok(ty, v)))
+                lines.append("tt.get 2")
+                lines.append("tt.getc %s 2" % f)
+    lines += ["tt.ids", "tt.raw"]
+    return lines
+
+
+def gen_crosslist_script(schema):
+    """Deterministic: two playlists with entities of both; every (list, entity) operation is also issued with
+    the id of the OTHER list, with the arguments transposed, and with ids that do not exist; raw rows around
+    each call."""
+    L = ["#mode tableapi", "tt.create " + schema,
+         "tpl.add 0 %s 0 0 0 0 0" % cd.hexb(b"A"), "tpl.add 0 %s 0 0 0 0 0" % cd.hexb(b"B"), "tpl.ids"]
+    for (l, t, u) in ((1, 1, b"a"), (2, 1, b"a"), (1, 2, b"a"), (2, 2, b"b"), (1, 3, b"b")):
+        L += ["tpe.raw", "tpe.add 0 %d %d %s 0 0 0" % (l, t, cd.hexb(u)), "tpe.get %d %d" % (l, t),
+              "tpe.get3 %d %d %s" % (l, t, cd.hexb(u))]
+    # entities: 1:(1,1) 2:(2,1) 3:(1,2) 4:(2,2) 5:(1,3)
+    for (l, e) in ((2, 1), (1, 2), (1, 1000), (3, 1), (0, 1), (1, 1), (1, 1), (2, 3), (3, 1), (5, 1), (2, 2), (2, 5), (1, 5)):
+        L += ["tpe.raw", "tpe.remove %d %d" % (l, e), "tpe.raw", "tpe.list 1", "tpe.list 2", "tpe.tracks 1"]
+    L += ["tpe.get3 1 2 %s" % cd.hexb(b"a"), "tpe.get3 2 2 %s" % cd.hexb(b"a"), "tpe.get 2 2", "tpe.raw",
+          "tpe.clear 2", "tpe.raw", "tpe.list 2", "tpe.list 1"]
+    return L
 
 
 # ------------------------------------------------------------------ list tables (Playlist, PlaylistEntity)
@@ -528,6 +619,9 @@ def gen_list_history(rng, schema, nops, hist):
                                                      rng.choice([0, 0, 1, -5, 2 ** 62]), 1 if dup else 0)
                          if rng.random() < 0.96 else "tpe.add 3 %d %d %s 0 0 0" % (l, t, cd.hexb(u)))
             lines.append("tpe.get %d %d" % (l, t))
+            lines.append("tpe.get3 %d %d %s" % (l, t, cd.hexb(u)))
+            if rng.random() < 0.5:
+                lines += ["tpe.raw", "tpe.list %d" % l, "tpe.tracks %d" % l]
             ent_ids += 1            # optimistic: duplicates and rejected rows consume no id
             ent_list[ent_ids] = l
             count("op:tpe.add")
@@ -535,16 +629,35 @@ def gen_list_history(rng, schema, nops, hist):
             l = some_pl()
             lines.append("tpe.raw")
             e = rng.randrange(1, ent_ids + 1) if (ent_ids and rng.random() < 0.8) else rng.choice([99, 0, -1])
-            if rng.random() < 0.6:
+            c2 = rng.random()
+            if c2 < 0.5:
                 l = ent_list.get(e, l)
+                count("tpe.remove:own-list")
+            elif c2 < 0.8 and e in ent_list:
+                # an entity that exists, named under ANOTHER list (existing or not): the pair does not exist
+                others = [x for x in sorted(set(list(sim.rows) + list(ent_list.values()) + [0, 77])) if x != ent_list[e]]
+                l = rng.choice(others)
+                count("tpe.remove:cross-list")
+            elif c2 < 0.9 and e in ent_list:
+                l, e = e, ent_list[e]                  # arguments transposed
+                count("tpe.remove:transposed")
+            else:
+                count("tpe.remove:random-list")
             lines.append("tpe.remove %d %d" % (l, e))
+            lines.append("tpe.raw")
+            if rng.random() < 0.5:
+                lines += ["tpe.list %d" % l, "tpe.tracks %d" % l]
             count("op:tpe.remove")
         elif c < 0.92:
             lines.append("tpe.clear %d" % some_pl())
             count("op:tpe.clear")
         else:
-            lines.append("tpe.get %d %d" % (some_pl(), rng.choice([1, 2, 3, 9])))
+            l = some_pl()
+            lines.append("tpe.get %d %d" % (l, rng.choice([1, 2, 3, 9])))
+            lines.append("tpe.get3 %d %d %s" % (l, rng.choice([1, 2, 3, 9]), cd.hexb(rng.choice(UUIDS))))
+            lines += ["tpe.raw", "tpe.list %d" % l]
             lines.append("tpl.get %d" % some_pl())
+            lines += ["tpl.ids", "tpl.exists %d" % some_pl()]
             count("op:get")
         if rng.random() < 0.6:
             lines += ["tpl.raw", "tpe.raw"]
@@ -553,9 +666,9 @@ def gen_list_history(rng, schema, nops, hist):
 
 
 # ------------------------------------------------------------------ running
-def run_pair(scripts):
+def run_pair(scripts, watchdog=20):
     """-> list of (lines, impl outputs, model outputs)"""
-    h = runner.run_harness(scripts, watchdog=20, stateless=False)
+    h = runner.run_harness(scripts, watchdog=watchdog, stateless=False)
     m = runner.run_model(scripts)
     return [(s, ho, mo) for s, (ho, _), mo in zip(scripts, h, m)]
 
@@ -596,6 +709,12 @@ class Oracle:
                     self.direct.append((k, "last-edit-floor-overflow",
                                         "get() of a playlist whose last-edit time lies in the first second of the "
                                         "time-point range has undefined behaviour (%s)" % h))
+                elif cmd in ("tpe.list", "tpe.tracks") and self.pe_rows is not None and \
+                        [r for r in self.pe_rows if r["listId"] == "i" + t[1]] and \
+                        not [r for r in self.pe_rows if r["listId"] == "i" + t[1] and r["nextEntityId"] == "i0"]:
+                    self.direct.append((k, "get-for-list-no-tail",
+                                        "get_for_list / track_ids on a list whose entities include none without a next "
+                                        "entity dereferences end() of its map (%s)" % h))
                 else:
                     self.direct.append((k, "ub", "undefined behaviour (%s) in %s" % (h, cmd)))
                 break
@@ -609,7 +728,32 @@ class Oracle:
             elif cmd == "tt.clock":
                 clock = int(t[1])
             elif cmd == "tt.ids" and h.startswith("ok ["):
-                ids = [int(x) for x in h[4:-1].split(",") if x]
+                new_ids = [int(x) for x in h[4:-1].split(",") if x]
+                if ids is not None and sorted(ids) != sorted(new_ids):
+                    self.direct.append((k, "all-ids", "all_ids() answers %s; the ids assigned by add() and not removed since "
+                                                      "the last listing are %s" % (sorted(new_ids), sorted(ids))))
+                ids = new_ids
+            elif cmd == "tt.exists" and h.startswith("ok "):
+                if ids is not None and (h == "ok 1") != (int(t[1]) in ids):
+                    self.direct.append((k, "exists", "exists(%s) answers '%s' but all_ids() / add() / remove() say the id is %s"
+                                        % (t[1], h, "present" if int(t[1]) in ids else "absent")))
+            elif cmd == "tt.find" and k >= 1 and L[k - 1] == "tt.raw" and H[k - 1].startswith("ok ") and t[1] != "-":
+                rows = raw_rows(H[k - 1])
+                hits = [i for i, row in rows.items() if re.search(r" path=s%s " % re.escape(t[1]), " " + row + " ")]
+                if (not hits and h != "ok none") or (hits and (not h.startswith("ok ") or h == "ok none" or int(h[3:]) not in hits)):
+                    self.direct.append((k, "find-id-by-path", "find_id_by_path answers '%s'; rows holding that path: %s" % (h, hits)))
+            elif cmd == "inf.setcpi":
+                if h == "ok" and k >= 1 and k + 2 < len(L) and L[k - 1] == "inf.raw" and L[k + 2] == "inf.raw" \
+                        and H[k - 1].startswith("ok ") and H[k + 2].startswith("ok "):
+                    a, b = parse_raw(H[k - 1]), parse_raw(H[k + 2])
+                    if len(a) == 1 and len(b) == 1:
+                        changed = sorted(c for c in a[0] if a[0][c] != b[0].get(c))
+                        if changed not in ([], ["currentPlayedIndiciator"]) or b[0].get("currentPlayedIndiciator") != "i" + t[1]:
+                            self.direct.append((k, "info-set-frame", "update_current_played_indicator(%s) changed columns %s "
+                                                "(currentPlayedIndiciator is now %s)" % (t[1], changed, b[0].get("currentPlayedIndiciator"))))
+                if h == "ok" and k + 1 < len(L) and L[k + 1] == "inf.get" and uuid != "null":
+                    self.queries.append(("c18.norm.info %s %s %s" % (schema, uuid, t[1]), "info-get", k + 1, H[k + 1],
+                                         "information_table::get() does not return the stored row"))
             elif cmd == "tt.add":
                 if h.startswith("ok ") and k + 1 < len(L):
                     i = int(h[3:])
@@ -681,6 +825,9 @@ class Oracle:
                         self.direct.append((k, "column-get", "get_%s on an existing row answered '%s'" % (f, h)))
             elif cmd == "tpl.ids" and h.startswith("ok ["):
                 self.pl_ids = [int(x) for x in h[4:-1].split(",") if x]
+            elif cmd == "tpl.exists" and h.startswith("ok "):
+                if self.pl_ids is not None and (h == "ok 1") != (int(t[1]) in self.pl_ids):
+                    self.direct.append((k, "exists", "playlist exists(%s) answers '%s', all_ids() says otherwise" % (t[1], h)))
             elif cmd == "tpl.add":
                 self.pl_ids = None
                 if h.startswith("ok "):
@@ -704,6 +851,7 @@ class Oracle:
                 if self.pl_ids is not None and i not in self.pl_ids and not h.startswith("throw "):
                     self.direct.append((k, "missing-row", "playlist remove() of an id with no row answered '%s' instead of an error" % h))
                 self.pl_ids = None
+                self.pe_rows = None     # the entities of the removed playlists go with them
             elif cmd == "tpe.raw" and h.startswith("ok "):
                 self.pe_rows = parse_raw(h)
             elif cmd in ("tpe.clear",):
@@ -715,19 +863,54 @@ class Oracle:
                     l, tr = int(t[2]), int(t[3])
                     inserted = all(int(r["id"][1:]) != i for r in rows)
                     if inserted and L[k + 1].split() == ["tpe.get", str(l), str(tr)]:
-                        # get(list, track) cannot say which database the track is from: with another entry of
-                        # the same (list, track) present the answer is ambiguous (recorded finding)
-                        amb = any(r["listId"] == "i%d" % l and r["trackId"] == "i%d" % tr for r in rows)
+                        # get(list, track) cannot say which database the track is from: it returns the entry of the
+                        # pair with the greatest database uuid.  The row written must come back when its uuid is
+                        # strictly the greatest of the pair; otherwise another row comes back (recorded finding)
+                        mine = b"" if t[4] == "-" else bytes.fromhex(t[4])
+                        others = [raw_bytes(r["databaseUuid"]) for r in rows
+                                  if r["listId"] == "i%d" % l and r["trackId"] == "i%d" % tr]
+                        amb = any(o is None or o >= mine for o in others)
                         self.queries.append(("c18.norm.entity %d %s" % (i, " ".join(t[1:7])),
                                              "entity-get-ambiguous" if amb else "roundtrip", k + 1, H[k + 1],
+                                             "the entity row read back through get(list, track) after add_back() differs from "
+                                             "the row written although it carries the greatest database uuid of its (list, track) pair"
+                                             if not amb else
                                              "the entity row read back after add_back() differs from the row written"))
+                    if inserted and k + 2 < len(L) and L[k + 2].split() == ["tpe.get3", str(l), str(tr), t[4]]:
+                        self.queries.append(("c18.norm.entity %d %s" % (i, " ".join(t[1:7])), "roundtrip", k + 2, H[k + 2],
+                                             "the entity row read back through get(list, track, database_uuid) after "
+                                             "add_back() differs from the row written"))
             elif cmd == "tpe.remove":
                 rows, self.pe_rows = self.pe_rows, None
                 if rows is not None:
                     l, e = int(t[1]), int(t[2])
                     present = any(r["listId"] == "i%d" % l and r["id"] == "i%d" % e for r in rows)
                     if not present and not h.startswith("throw "):
-                        self.direct.append((k, "missing-row", "entity remove() of an entity that does not exist answered '%s' instead of an error" % h))
+                        elsewhere = [r["listId"] for r in rows if r["id"] == "i%d" % e]
+                        self.direct.append((k, "missing-row", "entity remove(%d, %d): no entity %d in list %d%s, answered '%s' "
+                                            "instead of an error" % (l, e, e, l, (" (it is in list %s)" % elsewhere[0][1:]) if elsewhere else "", h)))
+                    if k + 1 < len(L) and L[k + 1] == "tpe.raw" and H[k + 1].startswith("ok "):
+                        after = parse_raw(H[k + 1])
+                        gone = sorted(set(r["id"] for r in rows) - set(r["id"] for r in after))
+                        want = ["i%d" % e] if (present and h == "ok") else []
+                        if gone != want and (present or not h.startswith("ok")):
+                            self.direct.append((k, "remove-frame", "entity remove(%d, %d) answered '%s' and deleted rows %s "
+                                                "(expected %s)" % (l, e, h, gone, want)))
+            elif cmd == "tpe.list" and h.startswith("ok [") and self.pe_rows is not None:
+                mine = [r for r in self.pe_rows if r["listId"] == "i" + t[1]]
+                got = [x.split() for x in h[4:-1].split(" | ")] if h != "ok []" else []
+                key = lambda r: (r["id"][1:], r["listId"][1:], r["trackId"][1:], r["databaseUuid"][1:], r["nextEntityId"][1:],
+                                 r["membershipReference"][1:])
+                have = [key(r) for r in mine]
+                bad = [g for g in got if tuple(g) not in have]
+                dup = len(set(map(tuple, got))) != len(got)
+                chain = chain_order(mine)
+                if bad or dup:
+                    self.direct.append((k, "get-for-list", "get_for_list(%s) returns rows that are not (exactly once) entities of "
+                                                           "that list: %s" % (t[1], (bad or got)[:3])))
+                elif chain is not None and [tuple(g) for g in got] != [key(r) for r in chain]:
+                    self.direct.append((k, "get-for-list", "get_for_list(%s) does not list the entities of the list in chain order: "
+                                                           "ids %s, chain %s" % (t[1], [g[0] for g in got], [r["id"][1:] for r in chain])))
             elif cmd == "tt.remove":
                 i = int(t[1])
                 if ids is not None:
@@ -764,6 +947,33 @@ class Oracle:
         return sorted(out)
 
 
+def raw_bytes(v):
+    """printed raw text value 's<hex>' / 's-' -> bytes (None for another storage class)"""
+    if not v.startswith("s"):
+        return None
+    return b"" if v[1:] in ("-", "") else bytes.fromhex(v[1:])
+
+
+def chain_order(rows):
+    """Spec of "in playlist order": the entities of one list, first to last, when their next pointers form one
+    chain ending in 0 that reaches every row; None when they do not (then only soundness is judged)."""
+    by_id = {r["id"]: r for r in rows}
+    if len(by_id) != len(rows):
+        return None
+    tails = [r for r in rows if r["nextEntityId"] == "i0"]
+    if len(tails) != 1:
+        return None if rows else []
+    nexts = [r["nextEntityId"] for r in rows]
+    if len(set(nexts)) != len(nexts):
+        return None
+    pred = {r["nextEntityId"]: r for r in rows}
+    out, cur = [tails[0]], tails[0]
+    while cur["id"] in pred and len(out) <= len(rows):
+        cur = pred[cur["id"]]
+        out.insert(0, cur)
+    return out if len(out) == len(rows) else None
+
+
 def raw_rows(h):
     """'ok seq=(n) {id=i1 …} {id=i2 …}' -> dict id -> row text"""
     out = {}
@@ -797,4 +1007,8 @@ def judge_all(results):
 
 
 def same(h, m):
+    """Outcome equality.  Dereferencing `end()` of the unordered_map in get_for_list / track_ids is reported
+    by the sanitizer as a null-pointer access; the Model's alphabet files it under oob_read."""
+    if h == "ub null_deref" and m == "ub oob_read":
+        return True
     return h == m
